@@ -101,7 +101,7 @@ def merge(results):
 
 
 def write_replay(prop, case, sig, detail):
-    d = os.path.join(env.VERIF, "replays", prop)
+    d = os.path.join(os.environ.get("VERIF_SCRATCH_OUT") or env.VERIF, "replays", prop)
     os.makedirs(d, exist_ok=True)
     h = hashlib.sha256(json.dumps([case, sig], sort_keys=True, default=str).encode()).hexdigest()[:12]
     p = os.path.join(d, h + ".json")
@@ -116,7 +116,8 @@ def main(check_name, tier, replay=None):
     mod = importlib.import_module("vf.checks." + check_name.lower())
     prop = mod.PROPERTY
     seed = int(os.environ.get("VERIF_SEED", "0"))
-    ev_path = os.path.join(env.VERIF, "evidence", prop + ".json")
+    # VERIF_SCRATCH_OUT: evidence/replays of trial runs against a scratch worktree go elsewhere
+    ev_path = os.path.join(os.environ.get("VERIF_SCRATCH_OUT") or env.VERIF, "evidence", prop + ".json")
     os.makedirs(os.path.dirname(ev_path), exist_ok=True)
 
     if replay:
